@@ -138,7 +138,7 @@ def _namespace(cfg):
             name = "c15_" + cid
             if name not in _U["usr"]:
                 a = cfg["args"]
-                _U["UnitSystem"](name, a[0], a[1], a[2], temperature_unit=a[3], angle_unit=a[4], current_mks_unit=a[5])
+                _U["UnitSystem"](name, _base_unit(a[0]), _base_unit(a[1]), _base_unit(a[2]), temperature_unit=_base_unit(a[3]), angle_unit=_base_unit(a[4]), current_mks_unit=_base_unit(a[5]))
             reg = _U["UnitRegistry"](unit_system=name)
         else:
             reg = _U["UnitRegistry"](unit_system=cfg["sys"])
@@ -182,7 +182,35 @@ def _l2(x, ref):
 
 
 def _raw(q):
-    return float(q.value) * float(q.units.base_value)
+    """SI magnitude of a quantity read through its own Unit object: (value - zero offset) x base_value"""
+    off = getattr(q.units, "base_offset", 0.0) or 0.0
+    return (float(q.value) - float(off)) * float(q.units.base_value)
+
+
+def _mentions_offset_unit(unit):
+    """the unit is, or its expression mentions, a unit with a zero offset (unyt refuses to multiply or raise those)"""
+    if getattr(unit, "base_offset", 0.0):
+        return True
+    lut = unit.registry.lut
+    for b in unit.expr.atoms():
+        if b.is_Number:
+            continue
+        _pre, sym = _U["split"](str(b), lut)
+        row = lut.get(sym) or lut.get(str(b))
+        if row is not None and row[2] != 0.0:
+            return True
+    return False
+
+
+def _base_unit(spec):
+    """a base unit of a user-defined unit system: a unit string, None, or [coefficient, unit] = a quantity used as base unit"""
+    if isinstance(spec, list):
+        return float(spec[0]) * _U["Unit"](spec[1])
+    return spec
+
+
+def _num(x, ref, su=True):
+    return {"o": "num", "fs": _flag(x, ref), "su": bool(su), "fr": NOFLAG, "fq": NOFLAG, "l2": NOFLAG, "fc": NOFLAG}
 
 
 def _row_anchor(ci):
@@ -241,6 +269,7 @@ def _guise(case):
     out["dv"] = dim_vec(q.units.dimensions) or []
     out["tab"] = bool(q.units.expr == _U["Unit"](row["u"]).expr)
     out["uem"] = bool(q.units.is_atomic and (str(q.units), q.units.dimensions) in _U["em"])
+    out["offu"] = bool(getattr(q.units, "base_offset", 0.0))  # the guise is shown in a unit with a zero offset (degC, degF)
     route = case["route"]
     try:
         if route == "raw":
@@ -257,6 +286,24 @@ def _guise(case):
         elif route == "cgsmks":
             v = q.in_cgs().in_mks()
             r = _dev(_raw(v), ci, qi, ns)
+            r["rv"] = dim_vec(v.units.dimensions) or []
+        elif route == "shown":
+            # the number shown, read in the unit shown: re-enter (value, unit string) in the same registry
+            # and read it in the tabulated unit (the CGS<->SI route for a Gaussian guise)
+            v = _U["uq"](float(q.value), str(q.units), registry=reg).to(_U["Unit"](row["u"]))
+            r = _dev(_raw(v), ci, qi, ns)
+            r["rv"] = dim_vec(v.units.dimensions) or []
+        elif route in ("tosys", "idem"):
+            # tosys: the configuration's tabulated guise converted to the unit the guise shows; idem: the guise converted to the unit it already shows
+            u = _U["Unit"](str(q.units)) if cfg["kind"] in ("module", "top") else _U["Unit"](str(q.units), registry=reg)
+            src = ns[row["k"] + "_mks"] if route == "tosys" else q
+            r = _num(float(src.to(u).value), float(q.value))
+            r["rv"] = out["dv"]
+        elif route == "defbase":
+            # the default constant expressed in the configuration's unit system: number and unit text against the guise's
+            d = vars(_U["pc"])[row["k"]]
+            v = d.in_base(reg.unit_system if cfg["kind"] not in ("module", "top") else "mks")
+            r = _num(float(v.value), float(q.value), su=str(v.units) == str(q.units))
             r["rv"] = dim_vec(v.units.dimensions) or []
         elif route == "eq":
             pcns = vars(_U["pc"])
@@ -289,7 +336,8 @@ def _rel(case):
         if not isinstance(q, _U["uq"]):
             return {"present": False}
         parts.append((q, e))
-    out = {"present": True, "pd": [dim_vec(q.units.dimensions) or [] for q, _ in parts]}
+    out = {"present": True, "pd": [dim_vec(q.units.dimensions) or [] for q, _ in parts],
+           "off": any(_mentions_offset_unit(q.units) for q, _ in parts)}
     coef = float(Fraction(*rel["rat"])) * math.pi ** rel["pik"]
     # (a) real unyt arithmetic: factors multiplied in the order that keeps the running magnitude moderate
     try:
